@@ -198,7 +198,7 @@ class Nist256p1Point(IPoint):
         Returns:
             IPoint object: IPoint object
         """
-        return self.__class__(self.m_point + point.UnderlyingObject())
+        return self.__class__(self.__CheckNotInfinity(self.m_point + point.UnderlyingObject()))
 
     def __radd__(self,
                  point: IPoint) -> IPoint:
@@ -224,7 +224,7 @@ class Nist256p1Point(IPoint):
         Returns:
             IPoint object: IPoint object
         """
-        return self.__class__(self.m_point * scalar)
+        return self.__class__(self.__CheckNotInfinity(self.m_point * scalar))
 
     def __rmul__(self,
                  scalar: int) -> IPoint:
@@ -238,3 +238,21 @@ class Nist256p1Point(IPoint):
             IPoint object: IPoint object
         """
         return self * scalar
+
+    @staticmethod
+    def __CheckNotInfinity(point_obj: ellipticcurve.PointJacobi) -> ellipticcurve.PointJacobi:
+        """
+        Check that the point is not the point at infinity (it cannot be represented by the class).
+
+        Args:
+            point_obj (PointJacobi object): Point object
+
+        Returns:
+            PointJacobi object: The same point object
+
+        Raises:
+            ValueError: If the point is the point at infinity
+        """
+        if point_obj == ellipticcurve.INFINITY:
+            raise ValueError("Invalid result (point at infinity)")
+        return point_obj
